@@ -72,6 +72,9 @@ def run_property(pid, tier, seed, args):
     samples = []
     fuc = []
     failed_obs = []
+    cct_total = {"name": "contract_tests_on_real_functions", "label": "bounded", "evaluations": 0, "functions": 0,
+                 "inconclusive": 0, "scope": "each proved contract evaluated on the real function (ASan harness) for solver-drawn "
+                 "inputs with region lengths <= 5"}
     for r in cres + pyres + lemres:
         if r.get("error"):
             kind = r.get("error_kind")
@@ -108,6 +111,10 @@ def run_property(pid, tier, seed, args):
                 failed_obs.append((r, ob))
             else:
                 rep.undecided.append("%s undecided: %s" % (ob["name"], ob.get("output", "")))
+        if r.get("cct"):
+            cct_total["evaluations"] += r["cct"].get("evaluations", 0)
+            cct_total["functions"] += 1
+            cct_total["inconclusive"] += r["cct"].get("inconclusive", 0) + r["cct"].get("pre_not_met", 0)
         ent = {"function": r["function"], "file": (r.get("info") or {}).get("file", r["file"]),
                "sha256": (r.get("info") or {}).get("sha256"), "lines": (r.get("info") or {}).get("lines"),
                "obligations": len(r["obligations"]), "discharged": nd, "paths": r.get("paths"),
@@ -144,6 +151,8 @@ def run_property(pid, tier, seed, args):
             build.cleanup()
 
     # --- verdict ----------------------------------------------------------------------
+    if cct_total["functions"]:
+        bounded_out.append(cct_total)
     wall = time.time() - t0
     if not args.only:      # a partial (debugging) run must not overwrite the evidence of the full check
         write_evidence(P, rep, tier, seed, wall, n_ob, n_dis, solver_time, backends, samples, fuc, bounded_out,
